@@ -6,7 +6,7 @@ REQUIRED = ["CifModel.C12_clean", "CifModel.C12_first_report_is_policy_free", "C
             "CifModel.C12_unexpected_value_instance", "CifModel.C12_dup_scalar_instance", "CifModel.C12_dup_loop_header_instance",
             "CifModel.C12_partial_packet_instance", "CifModel.C12_empty_and_null_loop_instance", "CifModel.C12_no_block_header_instance",
             "CifModel.C12_delimiters_instance", "CifModel.C12_table_keys_instance", "CifModel.C12_key_at_container_level_instance",
-            "CifModel.C12_frames_instance", "CifModel.Model.Parser.parse_spec",
+            "CifModel.C12_frames_instance", "CifModel.C12_invalid_index", "CifModel.C12_invalid_index_instance", "CifModel.Model.Parser.parse_spec",
             "CifModel.C12_missing_value", "CifModel.C12_unexpected_value", "CifModel.C12_dup_itemname", "CifModel.C12_empty_loop",
             "CifModel.C12_no_block_header", "CifModel.C12_partial_packet", "CifModel.C12_dup_header_name",
             "CifModel.C12_unexpected_delim", "CifModel.C12_unexpected_term", "CifModel.C12_missing_delim_list",
